@@ -301,6 +301,10 @@ func (g *G) text() string {
 		// a line that begins with a single slash is text, not a comment
 		t = r.Pick("/me ", "/", "/ ") + t
 	}
+	if g.P.Faults >= 4 && r.Intn(10) == 0 {
+		// markup the line parser refuses: the line is an error every time it is reached, and nothing else
+		t += r.Pick(" [b", " [/b] there", " [nomarkup]Oops", " [a=]", " [/]")
+	}
 	if g.P.Escapes && r.Intn(3) == 0 {
 		// (escaped brackets alone and together: the lexer passes them through, the markup pass resolves them)
 		t += r.Pick(" a#b", " {x}", " a\\b", " <<c", " x//y", " a<b", " a/b", " >}", " \\[z\\]", " x\\]y", " p\\[q", " \\] \\]", " e\\]")
